@@ -2,6 +2,7 @@ package sim
 
 import (
 	"fmt"
+	"math/bits"
 	"math/rand"
 	"time"
 
@@ -86,11 +87,23 @@ type RandSource struct {
 	G     SplitMix64
 	Draws uint64
 	Log   []uint64
+	// NoBoundaries switches the boundary draws off
+	NoBoundaries bool
 }
 
 func (r *RandSource) Uint64() uint64 {
 	r.Draws++
 	v := r.G.Next()
+	if !r.NoBoundaries && v%8 == 0 {
+		// one draw in eight is a boundary value: as a float in [0,1) it is the largest one below k/n for a
+		// small n that is not a power of two (a random source may return any value; bucket arithmetic
+		// done inexactly goes wrong exactly there)
+		x := r.G.Next()
+		n := []uint64{3, 5, 6, 7, 9, 10, 11, 12}[x%8]
+		k := 1 + (x>>8)%(n-1)
+		q, _ := bits.Div64(k, 0, n) // floor(k * 2^64 / n)
+		v = (q >> 11) << 11         // math/rand's Float64 is float64(v >> 1) / 2^63: exactly (q >> 11) / 2^53
+	}
 	r.Log = append(r.Log, v)
 	return v
 }
